@@ -46,7 +46,7 @@ def verify(name, checks, tier, scale):
     assert os.path.isdir(wt), out
     v = {}
     try:
-        demo = meta["demo"]
+        demo = meta["demo"] if not os.environ.get("SEEDED_FAST") else None  # fast: check + replay only
         if demo:
             src = open(os.path.join(d, demo)).read()
             if meta.get("origin_worktree"):
@@ -58,8 +58,9 @@ def verify(name, checks, tier, scale):
         v["patch_applies"] = rc == 0
         if rc != 0:
             print(out)
-        rc, out = sh(f"{PY} -m pytest -q -p no:cacheprovider --timeout=900 --deselect tests/samples/test_all.py::test_all", cwd=wt)
-        v["suite_with_patch"] = [l for l in out.strip().splitlines() if "passed" in l or "failed" in l][-1:]
+        if not os.environ.get("SEEDED_FAST"):
+            rc, out = sh(f"{PY} -m pytest -q -p no:cacheprovider --timeout=900 --deselect tests/samples/test_all.py::test_all", cwd=wt)
+            v["suite_with_patch"] = [l for l in out.strip().splitlines() if "passed" in l or "failed" in l][-1:]
         if demo:
             rc, out = sh(f"{PY} {demo}", cwd=wt)
             v["demo_with_patch"] = {"rc": rc, "tail": out.strip().splitlines()[-1:]}
@@ -79,7 +80,10 @@ def verify(name, checks, tier, scale):
     finally:
         sh(f"git -C /repo worktree remove --force {wt}")
         shutil.rmtree(wt, ignore_errors=True)
-    meta["verified"].update(v)
+    prev = dict(meta.get("verified", {}).get("checks", {}))
+    prev.update(v.get("checks", {}))
+    meta.setdefault("verified", {}).update(v)
+    meta["verified"]["checks"] = prev  # results for other checks are kept
     json.dump(meta, open(os.path.join(d, "meta.json"), "w"), indent=1)
     print(json.dumps({k: v[k] for k in v if k != "checks"}, indent=None))
 
@@ -91,10 +95,11 @@ def verify_all(only=None):
         m = json.load(open(d))
         if only and not m["name"].startswith(tuple(only)):
             continue
-        verify(m["name"], [m["property"]], "quick", 1.0)
+        with_ = m.get("catch_with") or [m["property"]]  # the check of another property, where that is the one that sees it
+        verify(m["name"], with_, "quick", 1.0)
         m = json.load(open(d))
-        c = m["verified"]["checks"][m["property"]]
-        rows.append((m["name"], m["property"], c["exit"], ",".join(k.replace("kind=", "") for k in c["kinds"][:3]), c["replay_reproduces"]))
+        c = m["verified"]["checks"][with_[0]]
+        rows.append((m["name"], m["property"] + ("" if with_[0] == m["property"] else f" (by {with_[0]})"), c["exit"], ",".join(k.replace("kind=", "") for k in c["kinds"][:3]), c["replay_reproduces"]))
         with open(os.path.join(VERIF, "seeded", "RESULTS.md"), "w") as f:
             f.write("# Seeded changes vs. the quick checks (tools/seeded.py verify-all)\n\n| change | property | check exit | violation kinds | replay reproduces |\n|---|---|---|---|---|\n")
             for r in rows:
